@@ -22,7 +22,9 @@ import (
 	"fmt"
 	"net"
 	"os"
+	"regexp"
 	"runtime"
+	"runtime/debug"
 	"strconv"
 	"strings"
 	"sync/atomic"
@@ -159,6 +161,35 @@ func renderLayer(l layer) string {
 	return s
 }
 
+// protect is lib.Protect plus a panic site that also works in scratch worktrees: the top-most
+// frame inside the repository's layers/ (or root) package, as `layers/file.go:line`.
+var siteRe = regexp.MustCompile(`/((?:layers/)?[a-z0-9_]+\.go):(\d+)`)
+
+func protect(f func() string) (string, bool) {
+	var site string
+	r, p := lib.Protect(func() (out string) {
+		defer func() {
+			if v := recover(); v != nil {
+				for _, l := range strings.Split(string(debug.Stack()), "\n") {
+					if strings.Contains(l, "/verif/") || strings.Contains(l, "/runtime/") || !strings.Contains(l, ".go:") {
+						continue
+					}
+					if m := siteRe.FindStringSubmatch(l); m != nil && (strings.Contains(l, "/layers/") || strings.Contains(l, "wt-") || strings.Contains(l, "/repo/") || strings.Contains(l, "gopacket")) {
+						site = m[1] + ":" + m[2]
+						break
+					}
+				}
+				panic(v)
+			}
+		}()
+		return f()
+	})
+	if p && site != "" {
+		lib.LastPanicSite = site
+	}
+	return r, p
+}
+
 type feedback struct{ trunc bool }
 
 func (f *feedback) SetTruncated() { f.trunc = true }
@@ -191,7 +222,7 @@ func inBuf(data, foreign []byte) []byte {
 func decodeInto(l layer, data []byte, where string) (string, bool) {
 	df := &feedback{}
 	var err error
-	r, panicked := lib.Protect(func() string {
+	r, panicked := protect(func() string {
 		err = l.DecodeFromBytes(data, df)
 		return ""
 	})
@@ -206,7 +237,7 @@ func decodeInto(l layer, data []byte, where string) (string, bool) {
 	}
 	lib.Stat("dec-ok")
 	// C01-style renderer safety on what the decoder left behind
-	if _, p := lib.Protect(func() string { return gopacket.LayerString(l.(gopacket.Layer)) + optStrings(l) }); p {
+	if _, p := protect(func() string { return gopacket.LayerString(l.(gopacket.Layer)) + optStrings(l) }); p {
 		lib.Finding("C01", E+":string-panic:"+lib.LastPanicSite, "String renderer panics on a decoded layer: "+lib.Hex(data))
 	}
 	return "ok t=" + b01(df.trunc) + " " + renderLayer(l), true
@@ -441,7 +472,7 @@ func dirtyBuf(v byte, a, b int) gopacket.SerializeBuffer {
 
 // serOnce: payload into the buffer, then SerializeTo.  Returns bytes/err/panic-reply.
 func serOnce(l layer, buf gopacket.SerializeBuffer, payload []byte, opts gopacket.SerializeOptions) (out []byte, err error, panicReply string) {
-	r, p := lib.Protect(func() string {
+	r, p := protect(func() string {
 		w, e := buf.PrependBytes(len(payload))
 		if e != nil {
 			err = e
@@ -544,7 +575,7 @@ func checkNoFlow(p gopacket.Packet) {
 
 func runPacket(first gopacket.LayerType, data []byte, flags int) (string, gopacket.Packet) {
 	var p gopacket.Packet
-	r, panicked := lib.Protect(func() string {
+	r, panicked := protect(func() string {
 		p = gopacket.NewPacket(data, first, gopacket.DecodeOptions{Lazy: flags&1 != 0, NoCopy: flags&2 != 0, SkipDecodeRecovery: true})
 		ls := p.Layers()
 		e := p.ErrorLayer() != nil
@@ -711,7 +742,7 @@ func exec(a []string) string {
 			d := newLayer(kind)
 			df := &feedback{}
 			var derr error
-			if _, pp := lib.Protect(func() string { derr = d.DecodeFromBytes(out, df); return "" }); pp {
+			if _, pp := protect(func() string { derr = d.DecodeFromBytes(out, df); return "" }); pp {
 				lib.Finding("C19", E+":panic:"+lib.LastPanicSite, "decode of serialized bytes panics")
 			} else if derr != nil || df.trunc {
 				lib.Finding("C06", E+":roundtrip:error", fmt.Sprintf("%s: decoding the serialized bytes %s fails (err=%v trunc=%v)", kind, lib.Hex(out), derr, df.trunc))
@@ -732,6 +763,60 @@ func exec(a []string) string {
 			}
 		}
 		return reply
+	case "decser":
+		// licmp decser <kind> <hist> <net> <hex>: what decoding produced must serialise (C07 "any layer that
+		// decoding produced"), deterministically, and decode back to itself (C06 "one obtained by decoding")
+		if len(a) != 6 || newLayer(a[2]) == nil {
+			return "bad-op"
+		}
+		kind := a[2]
+		buf, okb := mkBuf(a[3])
+		nl, okn := parseNet(a[4])
+		data, okd := lib.UnHex(a[5])
+		if !okb || !okn || !okd {
+			return "bad-op"
+		}
+		lib.Stat("decser:" + kind)
+		l := newLayer(kind)
+		if r, ok := decodeInto(l, inBuf(data, nil), "DecodeFromBytes("+kind+")"); !ok {
+			if strings.HasPrefix(r, "panic") {
+				return r
+			}
+			return "err"
+		}
+		payload := append([]byte(nil), l.LayerPayload()...)
+		setNet(l, nl)
+		orig := clone(kind, l, nl)
+		opts := gopacket.SerializeOptions{FixLengths: true, ComputeChecksums: true}
+		out, err, pr := serOnce(l, buf, payload, opts)
+		if pr != "" {
+			lib.Finding("C07", E+":ser-panic:"+lib.LastPanicSite, fmt.Sprintf("SerializeTo(%s) of a decoded layer panics (%s): %s", kind, lib.LastPanicMsg, lib.Hex(data)))
+			return pr
+		}
+		if err != nil {
+			if kind != "icmp6" || nl != nil {
+				lib.Finding("C06", E+":roundtrip:error", fmt.Sprintf("a decoded %s does not serialise: %v (input %s)", kind, err, lib.Hex(data)))
+			}
+			return "serr"
+		}
+		lib.Nontrivial()
+		o2, e2, p2 := serOnce(clone(kind, orig, nl), dirtyBuf(0xa5, len(out)+9, 3), payload, opts)
+		if p2 != "" || e2 != nil || !bytes.Equal(o2, out) {
+			lib.Finding("C07", E+":dirty-buffer", fmt.Sprintf("decoded %s: output depends on buffer history: %s vs %s", kind, lib.Hex(out), lib.Hex(o2)))
+		}
+		d := newLayer(kind)
+		df := &feedback{}
+		var derr error
+		if _, pp := protect(func() string { derr = d.DecodeFromBytes(out, df); return "" }); pp {
+			lib.Finding("C19", E+":panic:"+lib.LastPanicSite, "decode of serialized bytes panics")
+		} else if derr != nil || df.trunc {
+			lib.Finding("C06", E+":roundtrip:error", fmt.Sprintf("decoded %s re-serialised to %s which does not decode", kind, lib.Hex(out)))
+		} else if f := firstDiff(pubFields(l), pubFields(d)); f != "" {
+			lib.Finding("C06", E+":roundtrip:"+fieldName[f], fmt.Sprintf("decoded %s: wrote %s, read back %s", kind, kvStr(pubFields(l)), kvStr(pubFields(d))))
+		} else if !bytes.Equal(d.LayerPayload(), payload) {
+			lib.Finding("C06", E+":roundtrip:Payload", fmt.Sprintf("decoded %s: payload %s comes back as %s", kind, lib.Hex(payload), lib.Hex(d.LayerPayload())))
+		}
+		return "ok b=" + lib.Hex(out) + " " + kvStr(pubFields(l))
 	case "rt", "rt4":
 		var stack []gopacket.SerializableLayer
 		var kind string
@@ -779,7 +864,7 @@ func exec(a []string) string {
 		lib.Stat("rt:" + kind)
 		buf := gopacket.NewSerializeBuffer()
 		var serr error
-		if r, pp := lib.Protect(func() string {
+		if r, pp := protect(func() string {
 			serr = gopacket.SerializeLayers(buf, gopacket.SerializeOptions{FixLengths: true, ComputeChecksums: true}, stack...)
 			return ""
 		}); pp {
@@ -802,8 +887,10 @@ func exec(a []string) string {
 		// --- C06 stack round trip
 		okStack := true
 		if kind != "icmp4" {
+			// independent dispatch table (RFC 4443 / 4861 type numbers), not the code's NextLayerType
+			byType := map[uint8]string{128: "echo", 129: "echo", 133: "rs", 134: "ra", 135: "ns", 136: "na", 137: "redirect"}
 			okStack = wfGo(kind, inner, nl, payload) && wfGo("icmp6", hdr, nl, nil) &&
-				kindOfType((&layers.ICMPv6{TypeCode: hdr.(*layers.ICMPv6).TypeCode}).NextLayerType()) == kind
+				byType[hdr.(*layers.ICMPv6).TypeCode.Type()] == kind
 		}
 		if okStack {
 			lib.Nontrivial()
@@ -858,7 +945,7 @@ func exec(a []string) string {
 				}
 				b2 := gopacket.NewSerializeBuffer()
 				var e2 error
-				_, pp := lib.Protect(func() string {
+				_, pp := protect(func() string {
 					e2 = gopacket.SerializeLayers(b2, gopacket.SerializeOptions{FixLengths: true, ComputeChecksums: true}, st2...)
 					return ""
 				})
@@ -902,7 +989,7 @@ func exec(a []string) string {
 		var decoded []gopacket.LayerType
 		var err error
 		in := inBuf(data, nil)
-		r, panicked := lib.Protect(func() string {
+		r, panicked := protect(func() string {
 			err = parser.DecodeLayers(in, &decoded)
 			return ""
 		})
